@@ -42,10 +42,20 @@ theorem trial_fault_discarded (isDraw : Bool) (k : FaultKind) (hk : k ≠ .unrec
     CallOut.err ∉ allowed isDraw .trial (evalOf k) := by
   cases isDraw <;> cases k <;> first | decide | exact absurd rfl hk
 
-/-- `set_position` rejects an initial point whose evaluation is faulty in any way (the caller tries another one) -/
+/-- `set_position` rejects an initial point whose evaluation is faulty in any way (the caller tries another one); a merely low
+    finite log-density (`energyJump`) is not a fault of an initial point -/
 theorem bad_initial_point_rejected (k : FaultKind) :
-    allowed false .initState (evalOf k) = [.err] := by
+    allowed false .initState (evalOf k) = if k = .energyJump then [.ok] else [.err] := by
   cases k <;> rfl
+
+/-- **Energy limit**: a trajectory leapfrog whose energy error exceeds the configured `max_energy_error` makes the draw divergent —
+    the model has one `leapOf` for every doubling, with or without the U-turn check -/
+theorem energy_jump_diverges : allowed true .trajectory (evalOf .energyJump) = [.okDiverging] := rfl
+
+/-- ... and is invisible to the step-size search (own limit) and to the initial evaluations -/
+theorem energy_jump_elsewhere (isDraw : Bool) (r : Role) (hr : r ≠ .trajectory) :
+    CallOut.err ∉ allowed isDraw r (evalOf .energyJump) := by
+  cases isDraw <;> cases r <;> first | decide | exact absurd rfl hr
 
 /-- the first evaluation of `set_position` (used for the gradient-based initial mass matrix) is rejected exactly
     when it errs or has a non-finite gradient -/
